@@ -39,7 +39,13 @@ def run(rep):
     if not g.ok:
         raise ToolError("Gen_Prog failed: %s" % (g.violated or g.error))
     rep.add_tlc("Gen_Prog", g)
-    gen = sorted(g.cases, key=lambda c: c["prog"])
+    g2 = tlc("Gen_Prog", "Gen_Prog_kinds" if quick else "Gen_Prog_kinds_thorough", workers=8, timeout=1800, heap="8g")
+    if not g2.ok:
+        raise ToolError("Gen_Prog(kinds) failed: %s" % (g2.violated or g2.error))
+    rep.add_tlc("Gen_Prog(kinds)", g2)
+    if not any(e["k"] in ("money", "unit", "dur", "term") and l["form"] == "use" and len(l["toks"]) == 3 for c in g2.cases for l, e in zip(c["lines"], c["expected"])):
+        raise ToolError("vacuous generator: no computed value of another kind")
+    gen = sorted(g.cases + g2.cases, key=lambda c: c["prog"])
     if not quick and len(gen) > 150000:
         rng = random.Random(rep.seed)
         gen = rng.sample(gen, 150000)
@@ -146,8 +152,16 @@ def num_tok(x):
     return {"k": "num", "m": [x, 1], "sfx": ""}
 
 
-def rand_line(rng, i, bound_num, bound_any):
+def rand_line(rng, i, bound_num, bound_any, kinds=None):
     x = rng.random()
+    if kinds and rng.random() < 0.15:
+        # computing with a bound value of another kind (Meaning!MixedValue)
+        scal = [n for n in NAMES if kinds.get(tuple(n)) in ("money", "unit")]
+        durs = [n for n in NAMES if kinds.get(tuple(n)) == "dur"]
+        if scal and (not durs or rng.random() < 0.6):
+            return {"form": "use", "toks": [W(rng.choice(scal)), {"k": "op", "c": rng.choice("*/")}, num_tok(rng.randint(2, 4))]}
+        if durs:
+            return {"form": "use", "toks": [W(rng.choice(durs)), {"k": "op", "c": rng.choice("+-")}, W(rng.choice(durs))]}
     if x < 0.30 or not bound_any:
         name = rng.choice(NAMES)
         return {"form": "assign", "name": name, "rhs": {"form": "lit", "v": rand_value(rng, i)}}
@@ -180,7 +194,7 @@ def random_trace(rep, nprog):
             bound_any = [nm for nm in NAMES if tuple(nm) in kind]
             bound_num = [nm for nm in NAMES if kind.get(tuple(nm)) == "num"]
             # keep numeric magnitudes small: names that were multiplied often are dropped from the numeric pool
-            l = rand_line(rng, i, bound_num, bound_any)
+            l = rand_line(rng, i, bound_num, bound_any, kind)
             if l["form"] == "assign":
                 r = l["rhs"]
                 nm = tuple(l["name"])
